@@ -447,7 +447,7 @@ class Site:
                         blk = fp.read()
                     i, j = blk.find(MB), blk.find(MP)
                     argv, env = parse_dump(blk[i + len(MB):j], self.root) if 0 <= i < j else (["<no dump>"], [])
-                    events.append({"ev": "spawn", "argv": argv, "env": env})
+                    events.append({"ev": "spawn", "argv": argv, "env": env, "effects": sorted(self._canary() - can_before)})
                     self.spawns += 1
                 elif n == "pyg.log":
                     with open(p) as fp:
@@ -599,7 +599,7 @@ def selftest(traces):
 
     def pick(pred):
         for t in traces:
-            if pred(t):
+            if sum(1 for e in t["events"] if e["ev"] == "req") == 1 and pred(t):
                 return copy.deepcopy(t)
         raise LookupError("no suitable accepted trace")
 
@@ -632,7 +632,7 @@ def selftest(traces):
          lambda t: first(t, "spawn")["env"].append(["SEARCHREQUEST", "old"])),
         ("ServedWhenGated", lambda t: has(t, "spawn"), drop("spawn")),
         ("GatedRun", lambda t: has(t, "reply", toks=["SRC:/plain.txt"]),
-         lambda t: t["events"].insert(1, {"ev": "spawn", "argv": ["ROOT/plain.txt"], "env": []})),
+         lambda t: t["events"].insert(1, {"ev": "spawn", "argv": ["ROOT/plain.txt"], "env": [], "effects": []})),
         ("GatedLoad", lambda t: has(t, "reply", toks=["SRC:/n.pyg"]), lambda t: t["events"].insert(1, {"ev": "pyg", "what": "load"})),
         ("OutExact", lambda t: has(t, "spawn") and "E" in first(t, "reply")["toks"], lambda t: first(t, "reply")["toks"].remove("E")),
         ("StderrNotSent", lambda t: has(t, "spawn") and "DUMP" in first(t, "reply")["toks"], lambda t: first(t, "reply")["toks"].insert(0, "ERR")),
@@ -642,7 +642,7 @@ def selftest(traces):
         ("Reaped", lambda t: has(t, "spawn"), after("unreaped", 1)),
         ("NoFdLeft", lambda t: has(t, "spawn"), after("fdleft", 2)),
         ("ServerEnvUntouched", lambda t: has(t, "spawn"), after("envdelta", ["SEARCHREQUEST"])),
-        ("NoShell", lambda t: has(t, "spawn"), after("effects", ["CANARY"])),
+        ("NoShell", lambda t: has(t, "spawn"), lambda t: first(t, "spawn").update(effects=["CANARY"])),
         ("incomplete", lambda t: has(t, "spawn"), lambda t: t["events"].pop()),
     ]
     want, skipped = [], []
@@ -663,7 +663,7 @@ def selftest(traces):
     for i, (_t, clause) in enumerate(want):
         res[clause] = got.get(i, "ACCEPTED")
         if got.get(i) != clause:
-            raise core.MachineryError("selftest: corrupted trace %d expected %s, TraceXEXEC said %s" % (i, clause, got.get(i, "ACCEPTED")))
+            res.setdefault("mismatch", []).append("%s: TraceXEXEC said %s" % (clause, got.get(i, "ACCEPTED")))
     if skipped:
         res["skipped"] = skipped
     return res
@@ -718,8 +718,8 @@ def main(chk, replay=None):
     bad = {rj["index"] for rj in tv["rejected"]}
     st = selftest([t for i, t in enumerate(traces) if i not in bad])
     phase["selftest_s"] = round(time.time() - t1, 1)
-    if st.get("skipped") and not tv["rejected"]:
-        raise core.MachineryError("XEXEC: selftest found no accepted trace to corrupt for %r" % st["skipped"])
+    if (st.get("skipped") or st.get("mismatch")) and not tv["rejected"]:      # on a tree that violates nothing the binding must bite
+        raise core.MachineryError("XEXEC: binding self-test failed: skipped %r mismatch %r" % (st.get("skipped"), st.get("mismatch")))
     rej_classes = {}
     for rj in tv["rejected"]:
         i = rj["index"]
